@@ -29,6 +29,7 @@ import GunYu.Model.BisyncSite
 import GunYu.Proofs.BisyncBlocks
 import GunYu.Proofs.BisyncWorld
 import GunYu.Proofs.BisyncDrain
+import GunYu.Proofs.BisyncGlobal
 
 namespace GunYu.Props.C13
 open GunYu GunYu.BisyncUnit GunYu.Bisync
@@ -323,5 +324,160 @@ example : (runWorld wcfg (World.init [99,112,49] [99,112,50]) hist).commits.map 
     [.foreign 0, .foreign 1] := by decide +kernel
 example : ((runWorld wcfg (World.init [99,112,49] [99,112,50]) hist).b.stream.map (·.block.body.length)) =
     [3, 4] := by decide +kernel
+
+/-! ### the global theorem: arbitrary interleavings, restarts included, nothing assumed about states -/
+
+/-- **`BookClean` is derived, not assumed.** In every world reachable by
+    events that satisfy `EvOK'` (a condition on each event alone), the only keys
+    of the reserved namespace that carry an expiry are marker keys; hence every
+    bookkeeping request the tool issues meets no lazily expiring key and
+    propagates as itself or not at all — the hypothesis `exactly_once_and_quiesce`
+    made per event. -/
+theorem bookclean_derived (cfg : WCfg) (hf : FOK cfg.parser.filter) (cpAB cpBA : Bytes)
+    (hab : Slot.lbrace ∉ cpAB) (hba : Slot.lbrace ∉ cpBA) (evs : List Ev) (hgood : GoodEvents cfg evs)
+    (src : SiteId) (bk : Bookkeeping) (hv : bk.Valid) (hi : bk.Issued) :
+    BookClean cfg (runWorld cfg (World.init cpAB cpBA) evs) src bk :=
+  bookClean_of_nsTtl cfg _ src bk hv hi ((grun cfg hf evs _ (ginv_init cfg cpAB cpBA hab hba) hgood).ttl src.other)
+
+/-- **No loop and no false suppression, over arbitrary interleavings.** Two
+    sites, two links with checkpoint names as the tool generates them
+    (brace-free), empty at the start. Run ANY list of events, each satisfying
+    `EvOK'` — a condition on the event alone, nothing about the state it meets:
+    client commands and MULTI/EXEC transactions at either site on any keys
+    outside the reserved prefixes (the same keys at both sites included), clock
+    advances, expiry visits (marker keys included), link steps in either
+    direction, snapshot units, every bookkeeping request the tool issues, and
+    RESTARTS / reconnects of either syncer resuming anywhere between its last
+    committed unit and where it had read. Then, at every moment:
+
+    1. **no loop** — every unit ever committed was built from a client (or
+       expiry) block: nothing a link, a snapshot unit or the bookkeeping wrote
+       at a site is ever sent back, marker expired or not, syncer restarted or not;
+    2. **no false suppression, exactly once** — for each link, the units it has
+       committed at the other site are, in order, exactly the client blocks
+       with a non-empty effect among the blocks it has consumed, each once
+       (re-reading after a restart commits nothing twice), and each unit holds
+       exactly the commands of its block;
+    3. a link stops only because the unit builder refused a client block;
+    4. once no block still to be read is owed a commit, any further link steps
+       and restarts change neither stream, nor the commit log, nor the units.
+
+    The one exception of the property text is not in this model: databases
+    (`D31_counterexample` below). -/
+theorem no_loop_no_false_suppression (cfg : WCfg) (hf : FOK cfg.parser.filter) (cpAB cpBA : Bytes)
+    (hab : Slot.lbrace ∉ cpAB) (hba : Slot.lbrace ∉ cpBA) (evs : List Ev) (hgood : GoodEvents cfg evs) :
+    let w := runWorld cfg (World.init cpAB cpBA) evs
+    (∀ t ∈ w.commits, isForeign t.1 = true) ∧
+    ((∀ src, commitsAt w src.other = dueTags (w.site src).stream (w.link src).pos) ∧
+      ∀ s, ∀ p ∈ (w.link s).emitted, ∃ tb ∈ (w.site s).stream, tb.tag = p.1 ∧ p.2.unit.cmds = tb.block.body.map norm) ∧
+    (∀ src e, (w.link src).halted = some e → ∃ be, e = .build be) ∧
+    (NoPending w → ∀ more, (∀ e ∈ more, e.isLinkOrRestart) →
+      (runWorld cfg w more).a.stream = w.a.stream ∧ (runWorld cfg w more).b.stream = w.b.stream ∧
+      (runWorld cfg w more).commits = w.commits ∧
+      ∀ s, ((runWorld cfg w more).link s).emitted = (w.link s).emitted) := by
+  intro w
+  have hg : GInv cfg w := grun cfg hf evs _ (ginv_init cfg cpAB cpBA hab hba) hgood
+  refine ⟨?_, ⟨hg.winv.once, ?_⟩, hg.winv.halt, ?_⟩
+  · intro t ht
+    have hmem : t.1 ∈ commitsAt w t.2 := by
+      unfold commitsAt
+      exact List.mem_map.mpr ⟨t, List.mem_filter.mpr ⟨ht, by simp⟩, rfl⟩
+    have hsrc : t.2 = t.2.other.other := (other_other t.2).symm
+    rw [hsrc, hg.winv.once t.2.other] at hmem
+    exact dueTags_foreign _ _ _ hmem
+  · exact content_grun cfg hf evs _ (ginv_init cfg cpAB cpBA hab hba) (content_init cpAB cpBA) hgood
+  · intro hnp more hl
+    exact gquiesce cfg hf more w hg hnp hl
+
+/-- … and the exchange still drains: from any such world there is a finite
+    sequence of link steps after which both links are settled. -/
+theorem drain_reaches_global (cfg : WCfg) (hf : FOK cfg.parser.filter) (cpAB cpBA : Bytes)
+    (hab : Slot.lbrace ∉ cpAB) (hba : Slot.lbrace ∉ cpBA) (evs : List Ev) (hgood : GoodEvents cfg evs) :
+    let w := runWorld cfg (World.init cpAB cpBA) evs
+    ∃ more, (∀ e ∈ more, e.isLink) ∧ (∀ s, Settled (runWorld cfg w more) s) := by
+  intro w
+  have hg : GInv cfg w := grun cfg hf evs _ (ginv_init cfg cpAB cpBA hab hba) hgood
+  obtain ⟨more, h1, _, h3⟩ := Bisync.drain_reaches cfg hf w hg.winv
+  exact ⟨more, h1, h3⟩
+
+-- non-vacuity: both directions active, the same key written at both sites,
+-- the A→B syncer restarted and re-reading a block it had already passed
+private def hist2 : List Ev :=
+  [.client .A false [incrN], .link .A arg0, .client .B false [incrN], .link .B arg0, .link .B arg0,
+   .link .A arg0, .restart .A 1, .link .A arg0, .link .A arg0, .tick .B 86400001,
+   .client .A true [incrN, incrN], .link .A arg0, .link .B arg0, .book .A (.frontierSave cpA [[118], [49]])]
+where cpA : Bytes := Gen.bisyncCheckpointKeyPrefix ++ [58, 49]
+private theorem cpA_valid : Gen.checkpointKey <+: Gen.bisyncCheckpointKeyPrefix ++ [58, 49] :=
+  (show Gen.checkpointKey <+: Gen.bisyncCheckpointKeyPrefix from ⟨[45,98,105,115,121,110,99], by decide⟩).trans
+    (List.prefix_append _ _)
+example : GoodEvents wcfg hist2 := by
+  have hc : ∀ c ∈ [incrN], ClientOK wcfg.parser c := fun c hc => by rw [List.mem_singleton.mp hc]; exact incrN_ok
+  have hcc : ∀ c ∈ [incrN, incrN], ClientOK wcfg.parser c := by
+    intro c hc
+    have : c = incrN := by simpa using hc
+    rw [this]; exact incrN_ok
+  unfold hist2
+  refine goodEvents_cons _ _ _ hc <| goodEvents_cons _ _ _ trivial <| goodEvents_cons _ _ _ hc <|
+    goodEvents_cons _ _ _ trivial <| goodEvents_cons _ _ _ trivial <| goodEvents_cons _ _ _ trivial <|
+    goodEvents_cons _ _ _ trivial <| goodEvents_cons _ _ _ trivial <| goodEvents_cons _ _ _ trivial <|
+    goodEvents_cons _ _ _ trivial <| goodEvents_cons _ _ _ hcc <| goodEvents_cons _ _ _ trivial <|
+    goodEvents_cons _ _ _ trivial <| goodEvents_cons _ _ _ ⟨cpA_valid, trivial⟩ <| goodEvents_nil _
+-- the restart really rewinds the A→B link (it had read two blocks, resumes at 1) …
+example : ((runWorld wcfg (World.init [99,112,49] [99,112,50]) (hist2.take 6)).ab.pos,
+    (runWorld wcfg (World.init [99,112,49] [99,112,50]) (hist2.take 7)).ab.pos) = (2, 1) := by decide +kernel
+-- … and the history ends with each client block committed once at the other site, in order,
+-- the block B's link wrote at A read twice by the restarted link and never sent back
+example : (runWorld wcfg (World.init [99,112,49] [99,112,50]) hist2).commits =
+    [(.foreign 0, .B), (.foreign 1, .A), (.foreign 2, .B)] := by decide +kernel
+example : Slot.lbrace ∉ ([99,112,49] : Bytes) ∧ Slot.lbrace ∉ ([99,112,50] : Bytes) := by decide
+
+/-! ### the exception: databases (known finding D31) -/
+
+/-- the database a position of the source stream is written in: the argument
+    of the last `SELECT` before it (a fresh replication stream starts in 0) -/
+def dbBefore : List Item → Nat → Nat → Nat
+  | [], _, cur => cur
+  | it :: rest, off, cur =>
+    if it.endOff > off then cur
+    else if lower it.cmd.name == wSelect then dbBefore rest off ((decToNat? (it.cmd.args.headD [])).getD cur)
+    else dbBefore rest off cur
+
+/-- the database a commit transaction executes in at the target: the target
+    connection's (0; the tool opens it and never selects) unless the
+    transaction itself carries a `SELECT` -/
+def commitDb (txn : List Cmd) : Nat :=
+  match txn.find? (fun c => lower c.name == wSelect) with
+  | some c => (decToNat? (c.args.headD [])).getD 0
+  | none => 0
+
+/-- what the property text asks for, with databases: every unit is committed in
+    the database its commands were written in -/
+def applied_in_source_db_stmt : Prop :=
+  ∀ (pc : PCfg), FOK pc.filter → ∀ (its : List Item) (cp : Bytes) (k : CommitKind) (p : Payload),
+    ∀ e ∈ (parse pc {} its []).1, commitDb (commitCmds cp k e.unit p) = dbBefore its e.startOff 0
+
+private def selectSet : List Item :=
+  items 0 [⟨wSelect, [[51]]⟩, ⟨wSet, [[107,48], [118]]⟩]           -- SELECT 3 ; SET k0 v
+
+/-- **Known finding D31, as a counter-witness.** The statement with databases
+    is FALSE for the tool as it is: the stream `SELECT 3; SET k0 v` yields one
+    unit (the parser consumes the SELECT and the unit carries no database), and
+    no commit transaction of that unit — whatever its kind — selects a
+    database, so it executes in database 0 while the write was made in 3. -/
+theorem D31_counterexample : ¬ applied_in_source_db_stmt := by
+  intro h
+  have hmem : (parse ⟨Filter.buildOutput {}, standaloneMode, defaultResolver⟩ {} selectSet []).1 ≠ [] := by
+    decide +kernel
+  cases hp : (parse ⟨Filter.buildOutput {}, standaloneMode, defaultResolver⟩ {} selectSet []).1 with
+  | nil => exact hmem hp
+  | cons e es =>
+    have := h ⟨Filter.buildOutput {}, standaloneMode, defaultResolver⟩ default_filter_ok selectSet [99,112] .latest
+      ⟨[123,125], [[102],[118]], 1⟩ e (by rw [hp]; simp)
+    have hd : ∀ e' ∈ (parse ⟨Filter.buildOutput {}, standaloneMode, defaultResolver⟩ {} selectSet []).1,
+        commitDb (commitCmds [99,112] .latest e'.unit ⟨[123,125], [[102],[118]], 1⟩) = 0 ∧
+        dbBefore selectSet e'.startOff 0 = 3 := by decide +kernel
+    obtain ⟨h0, h3⟩ := hd e (by rw [hp]; simp)
+    rw [h0, h3] at this
+    cases this
 
 end GunYu.Props.C13
